@@ -16,7 +16,8 @@ META = dict(
               "authentication monitor: no packet with a modified byte is delivered; runtime contract on "
               "util.constant_time_bytes_eq",
     text="For every cipher x MAC pair the tree offers (classic MAC-over-plaintext, -etm and AES-GCM framing), with and "
-         "without compression and with a mid-stream key switch, a real keyed sender records a stream of 3-8 messages. "
+         "without compression and with a mid-stream key switch (the receiver's own sending direction keyed with an "
+         "independently drawn suite: all inbound x outbound framing-family pairs), a real keyed sender records a stream of 3-8 messages. "
          "Every byte position of the encrypted part (thorough: the whole stream; quick: every position of the first two "
          "encrypted packets and a 10% sample of the rest) is subjected to: one-bit flip (thorough: all eight bits in the "
          "first two packets), all-bits flip, deletion, insertion of a random byte; plus truncation, whole-packet swap, "
@@ -89,9 +90,13 @@ class EqContract:
 # ---------------------------------------------------------------------------
 # recorded streams
 # ---------------------------------------------------------------------------
-def record_stream(rng, cipher, mac, comp, role, rekey, quick):
+BYFAM = pb.suites_by_family()
+
+
+def record_stream(rng, cipher, mac, comp, role, rekey, quick, k=0):
+    # the receiver's own sending direction gets an independent suite; its family cycles with k
     b = pb.Bench(rng, cipher, mac, comp, sender_role=role, strict=rng.random() < 0.25,
-                 hash_name=rng.choice(pb.HASHES))
+                 hash_name=rng.choice(pb.HASHES), rev=pb.draw_reverse(rng, k, BYFAM))
     b.rekey()
     bs = paramiko.Transport._cipher_info[cipher]["block-size"]
     n = rng.randint(3, 5) if quick else rng.randint(3, 8)
@@ -269,6 +274,7 @@ def run(ctx):
     else:
         passes = 6
     k = 0
+    nstream = 0
     stopped = False
     for rep in range(passes):
         for (c, m) in suites:
@@ -286,14 +292,22 @@ def run(ctx):
                     stopped = True
                     break
                 role = rng.choice(["client", "server"])
-                b = record_stream(rng, c, m, comp, role, rekey, ctx.quick)
+                nstream += 1
+                b = record_stream(rng, c, m, comp, role, rekey, ctx.quick, k=nstream + ctx.shard)
                 R = Recorded(b, c, m, comp)
-                # sanity of the recording itself (not a verdict): untampered stream decodes fully
+                # the untampered stream is C01's subject; here a receiver that fails on it is just a
+                # receiver that fails: the fault enumeration and its oracles apply unchanged
                 rx = b.receiver()
                 rx.drain(R.wire)
-                if rx.delivered != R.sent:
-                    ctx.inconclusive("recorded stream does not decode untampered (%s %s %s): C01's subject" % (c, m, comp))
-                    continue
+                if rx.delivered == R.sent:
+                    ctx.count("streams_decoding_untampered")
+                else:
+                    ctx.count("streams_not_decoding_untampered")
+                fi = pb.framing_mode(c, m) or "unknown-suite"
+                fo = pb.framing_mode(*b.rev) if b.rev else fi
+                ctx.count("streams_rx_in_%s_out_%s" % (fi, fo))
+                if fi != fo:
+                    ctx.count("streams_mixed_family_pairs")
                 ctx.count("streams_recorded")
                 ctx.count("streams_%s" % (pb.framing_mode(c, m) or "unknown-suite"))
                 if len(ctx.samples) < 3:
@@ -321,6 +335,12 @@ def run(ctx):
             ctx.count("stopped_on_time_cap")
             break
     ctx.require("streams_recorded", len(suites))
+    ctx.require("streams_decoding_untampered", len(suites) // 4)
+    ctx.require("streams_mixed_family_pairs", len(suites) // 2)
+    for fi in pb.FAMILIES:
+        for fo in pb.FAMILIES:
+            if BYFAM[fi] and BYFAM[fo]:
+                ctx.require("streams_rx_in_%s_out_%s" % (fi, fo), 3)
     ctx.require("first_two_packets_fully_enumerated", len(suites))
     ctx.require("tampered_streams_decoded", 20000)
     ctx.require("mac_compare_calls_observed", 5000)
